@@ -350,6 +350,28 @@ def _(I):
 def _(I):
     circ = I.circuit(compile_=True, copy=True)
     return (circ.forward_map, circ.forward(I.Lst()))
+@op('c/circuit-recompile')
+def _(I):
+    circ = I.c.identity_circuit(I.N)
+    prog = I.d['prog']
+    h = len(prog) // 2
+    for gd in prog[:h]:
+        circ.take(C.gate_lib(gd, I.be))
+    circ.compile()
+    for gd in prog[h:]:
+        circ.take(C.gate_lib(gd, I.be))
+    circ.compile()
+    return (circ.forward_map, circ.backward_map, circ.forward(I.Lst()), circ.backward(I.S()))
+@op('c/rotation-gates-compiled')
+def _(I):
+    circ = I.c.identity_circuit(I.N)
+    for which in (I.L, I.L2):
+        for l in which:
+            if l.any():
+                circ.take(I.c.clifford_rotation_gate(I.Bk.pauli(l, 0)))
+    a = circ.forward(I.Lst())
+    circ.compile()
+    return (a, circ.forward(I.Lst()), circ.backward(I.Lst2()))
 @op('c/clifford_rotation_gate')
 def _(I):
     g = I.c.clifford_rotation_gate(I.Bk.pauli(_nonid(I), 2 * (I.d['i0'] % 2)))
